@@ -181,3 +181,29 @@ func TestProbeVersions(t *testing.T) {
 	}
 	fmt.Println("height", s.TS.Ctx.BlockHeight())
 }
+
+func TestProbeUnion(t *testing.T) {
+	if os.Getenv("VERIF_PROBE") != "union" {
+		t.Skip()
+	}
+	for seed := int64(11); seed < 19; seed++ {
+		prof := profPairing()
+		s := NewSim(t, seed, prof)
+		s.BuildWorld()
+		for ep := 0; ep < 6; ep++ {
+			s.NextEpoch()
+			c := s.Cons[0]
+			seen := map[string]int{}
+			for i := 0; i < 200; i++ {
+				l := s.pairedProviders("SPA", c.Addr)
+				seen[strings.Join(shortAll(l), ",")]++
+			}
+			fmt.Println("seed", seed, "epoch", ep, "distinct lists:", seen)
+		}
+	}
+	s := NewSim(t, 11, profPairing())
+	s.BuildWorld()
+	c := s.Cons[0]
+	res, err := s.TS.QueryPairingEffectivePolicy("SPA", c.Addr)
+	fmt.Println(res, err)
+}
